@@ -1529,9 +1529,14 @@ func (f *File) WriteTo(w io.Writer) (written int64, err error) {
 
 						} else {
 							l, data := unmarshalUint32(data)
-							b = pool.Get()[:l]
-							n = copy(b, data[:l])
-							b = b[:n]
+							if l > uint32(chunkSize) {
+								// More data than was asked for: the pooled buffer can not hold it.
+								err = unexpectedCount(uint32(chunkSize), l)
+							} else {
+								b = pool.Get()[:l]
+								n = copy(b, data[:l])
+								b = b[:n]
+							}
 						}
 
 					default:
